@@ -2,6 +2,7 @@ import HidVerif.Proofs.Terminal
 import HidVerif.Proofs.Tables
 import HidVerif.Proofs.SourceLaws
 import HidVerif.Proofs.CoreMain
+import HidVerif.Props.C17
 /-!
 # C03 — halt is defeat: a compiled program never halts
 
@@ -46,6 +47,48 @@ that never halts; reporting `halted` exhibits `Halts init` -/
 theorem vm_verdict_sound {p : Prog} {B : Nat} (hp : Placed p B) (fuel : Nat) (s₀ : St) :
     Sound (sphinx p) (fun s => s.pc == tntPc B) s₀
       ((sphinx p).run (fun s => s.pc == tntPc B) (fun _ => #[]) fuel s₀) := vm_sound hp fuel s₀
+
+/-! ## The print routines of the library commit no halt of their own -/
+
+/-- `Reach` preserves the halting status in both directions -/
+theorem reach_halts_iff {p : Prog} {s s' : St} {tr} (h : Reach (sphinx p) s tr s') :
+    Halts (sphinx p) s ↔ Halts (sphinx p) s' :=
+  ⟨fun hs => Classical.byContradiction (fun hn => (h.exec hn).2 hs), h.1⟩
+
+/-- **library print routines never halt**: called according to the calling convention (the hypotheses of the
+C17 theorems: registers in place, argument slots below `fp`, lengths below half the address space - zero
+included), each of `write_int`, `write_string`, `write_const_byte_array`, `write_state_byte_array` and
+`write_bool` halts iff the caller's continuation at the return address does; their Turing jumps (the
+empty-array guards among them) are all resolved inside the routine.  For the library text of the current
+tree, every `w ≥ 2`. -/
+theorem library_writes_never_halt (p : Prog) (B : Nat) (hp : Placed p B) (m : Mem) (F ra r0 r1 r2 : Nat)
+    (hF : 6 * p.w ≤ F) (hFM : F < 256 ^ p.w) (hFsz : F ≤ m.size) (hr : Regs p.w m F r0 r1 r2)
+    (hra : m.readLE (F - p.w) p.w = ra) :
+    (∀ v, v < 256 ^ p.w → 5 * p.w + (digits (absW (256 ^ p.w) v)).length + p.w ≤ F → 7 * p.w ≤ F →
+      m.readLE (F - 2 * p.w) p.w = v →
+      ∃ m', (Halts (sphinx p) ⟨B + off_write_int, m⟩ ↔ Halts (sphinx p) ⟨ra, m'⟩)) ∧
+    (∀ s k, k < 256 ^ p.w / 2 → s + p.w + k < 256 ^ p.w → s + p.w + k ≤ p.const.size →
+      m.readLE (F - 2 * p.w) p.w = s → p.const.readLE s p.w = k →
+      ∃ m', (Halts (sphinx p) ⟨B + off_write_string, m⟩ ↔ Halts (sphinx p) ⟨ra, m'⟩)) ∧
+    (∀ a k, k < 256 ^ p.w / 2 → a + k < 256 ^ p.w → a + k ≤ p.const.size →
+      m.readLE (F - 3 * p.w) p.w = a → m.readLE (F - 2 * p.w) p.w = k →
+      ∃ m', (Halts (sphinx p) ⟨B + off_write_const_byte_array, m⟩ ↔ Halts (sphinx p) ⟨ra, m'⟩)) ∧
+    (∀ a k, k < 256 ^ p.w / 2 → a + k < 256 ^ p.w → 5 * p.w ≤ a → a + k ≤ m.size →
+      m.readLE (F - 3 * p.w) p.w = a → m.readLE (F - 2 * p.w) p.w = k →
+      ∃ m', (Halts (sphinx p) ⟨B + off_write_state_byte_array, m⟩ ↔ Halts (sphinx p) ⟨ra, m'⟩)) ∧
+    (∃ m', (Halts (sphinx p) ⟨B + off_write_bool, m⟩ ↔ Halts (sphinx p) ⟨ra, m'⟩)) := by
+  refine ⟨fun v hv hroom h7 harg => ?_, fun s k hk hs hssz hptr hlen => ?_, fun a k hk ha hasz haddr hlen => ?_,
+    fun a k hk ha h5 hasz haddr hlen => ?_, ?_⟩
+  · obtain ⟨m', h, _⟩ := C17.write_int_correct p B hp m F v ra r0 r1 r2 hv hFM hFsz hroom h7 hr harg hra
+    exact ⟨m', reach_halts_iff h⟩
+  · obtain ⟨m', h, _⟩ := C17.write_string_correct p B hp m F s k ra r0 r1 r2 hk hs hssz hF hFM hFsz hr hptr hlen hra
+    exact ⟨m', reach_halts_iff h⟩
+  · obtain ⟨m', h, _⟩ := C17.write_const_byte_array_correct p B hp m F a k ra r0 r1 r2 hk ha hasz hF hFM hFsz hr haddr hlen hra
+    exact ⟨m', reach_halts_iff h⟩
+  · obtain ⟨m', h, _⟩ := C17.write_state_byte_array_correct p B hp m F a k ra r0 r1 r2 hk ha h5 hasz hF hFM hFsz hr haddr hlen hra
+    exact ⟨m', reach_halts_iff h⟩
+  · obtain ⟨m', h, _⟩ := C17.write_bool_correct p B hp m F ra r0 r1 r2 hF hFM hFsz hr hra
+    exact ⟨m', reach_halts_iff h⟩
 
 /-! ## The sequential integer core never halts (proved for the model that the `core`
 correspondence suite identifies with the compiler's output) -/
